@@ -742,10 +742,8 @@ def replay_entities(kinds):
     return bad
 
 
-def main(tier):
-    res = Result('C12', 'other')
-    res.engines = ['M (MIR symbolic execution + z3; reference decoders over symbolic characters)']
-    mod = Module(common.mir_dump('tc'))
+def run_m12a(res, mod, tier):
+    """M12a with its replay; shared by C12 (value) and C02 (the literal is valid JavaScript)"""
     try:
         na, pend_a = m12a(res, mod, tier)
     except MirUnsupported as e:
@@ -760,21 +758,6 @@ def main(tier):
             s0, ctx, got = bad[0]
             res.violation({'engine': 'replay', 'harness': 'M12a-fallback', 'class': 'e2e'},
                           'the string %r as %s reaches the runtime as %s (%d of %d probe strings differ)' % (s0, ctx, got[:120], len(bad), len(probe)), {'string': s0, 'context': ctx})
-    nb, pend_b = m12b(res, mod, tier)
-    nc, pend_c = m12c(res, mod, tier)
-    seen = set()
-    for cls, what, s0, kind in pend_c:
-        if cls in seen:
-            continue
-        seen.add(cls)
-        bad = replay_entities([kind])
-        res.coverage['traces_validated_against_impl'] = res.coverage.get('traces_validated_against_impl', 0) + 1
-        if bad:
-            res.violation({'engine': 'M', 'harness': 'M12c', 'class': cls}, '%s; end to end: static text %s %s (%d references differ)' % (what, bad[0][0], bad[0][1], len(bad)),
-                          {'entity': bad[0][0]})
-        else:
-            res.inconc('M12c: %s - not observable end to end' % what)
-    # replay
     seen = set()
     for cls, what, s in pend_a:
         if cls in seen:
@@ -789,6 +772,28 @@ def main(tier):
                           'gen_lit_str: %s; end to end: the string %r as %s reaches the runtime as %s' % (what, s0, ctx, got), {'string': s0, 'context': ctx})
         else:
             res.inconc('M12a: %s (witness %r) - not observable end to end' % (what, s))
+    return na
+
+
+def main(tier):
+    res = Result('C12', 'other')
+    res.engines = ['M (MIR symbolic execution + z3; reference decoders over symbolic characters)']
+    mod = Module(common.mir_dump('tc'))
+    na = run_m12a(res, mod, tier)
+    nb, pend_b = m12b(res, mod, tier)
+    nc, pend_c = m12c(res, mod, tier)
+    seen = set()
+    for cls, what, s0, kind in pend_c:
+        if cls in seen:
+            continue
+        seen.add(cls)
+        bad = replay_entities([kind])
+        res.coverage['traces_validated_against_impl'] = res.coverage.get('traces_validated_against_impl', 0) + 1
+        if bad:
+            res.violation({'engine': 'M', 'harness': 'M12c', 'class': cls}, '%s; end to end: static text %s %s (%d references differ)' % (what, bad[0][0], bad[0][1], len(bad)),
+                          {'entity': bad[0][0]})
+        else:
+            res.inconc('M12c: %s - not observable end to end' % what)
     seen = set()
     for cls, what, s, _ in pend_b:
         if cls in seen:
